@@ -35,8 +35,8 @@ def cross_process(r):
 
 def run(tier):
     fn, t = ("c20", 400) if tier == "quick" else ("c20t", 1500)
-    jobs = [chrun.SJob("vlib.sh.c20", fn, base.parts(32), t,
-                       what="calc_ast_hash on pairs (A,B): 8 program shapes (incl. a slice with one bound and a lambda parameter with a default: optional child slots) x leaf kind {int in [-2,2], bool, str over an 8-character class alphabet "
+    jobs = [chrun.SJob("vlib.sh.c20", fn, base.parts(36), t,
+                       what="calc_ast_hash on pairs (A,B): 9 program shapes (incl. variable-length lists nested in each other, a slice with one bound and a lambda parameter with a default: optional child slots) x leaf kind {int in [-2,2], bool, str over an 8-character class alphabet "
                             "(ascii, quote, backslash, space, Latin-1, >U+00FF, astral, digit) of length <=%d, float edge values}; B derived from A by a "
                             "solver-split relation: rebuild (same/other binder name), unparse/parse round trip, non-field annotations (lineno, _q_metadata, "
                             "executor, arbitrary attribute), one of 12 single edits (incl. one non-ASCII character replaced by another), the same edit applied to both, a shallow copy of the top node with a replaced argument, or an in-place edit between two hash computations; oracle: hashes equal iff structurally identical"
@@ -45,7 +45,7 @@ def run(tier):
                        explanation="bounded symbolic execution (CrossHair/z3) of calc_ast_hash; all leaves are bounded and case-split by the solver because "
                                    "ast.dump->repr->md5 is C code that realises its input (stated bound, not 'all strings')",
                        functions=["func_adl.ast.ast_hash.calc_ast_hash"],
-                       bounds={"shapes": 8, "int_leaf": [-2, 2], "str_alphabet": 8, "str_len": 1 if tier == "quick" else 2, "relations": 7, "edit_kinds": 13},
+                       bounds={"shapes": 9, "int_leaf": [-2, 2], "str_alphabet": 8, "str_len": 1 if tier == "quick" else 2, "relations": 7, "edit_kinds": 14},
                        extra_assumptions=["md5 collisions are outside the claim", "0.0 vs -0.0 and NaN are excluded (whether they are 'identical' is debatable)"],
                        not_traced=["construction of the pair (A,B) and the structural comparer (harness side)", "hashlib.md5, repr (C code, concrete)"])
     cross_process(r)
